@@ -1473,3 +1473,17 @@ TWINS = [
       "        return (len(self),) + self.h5dataset.shape[1:]\n\n\n"
       "class H5ScalarEvent")),
 ]
+
+# mutants that re-introduce the repaired defects (apply to the fixed tree)
+MUTANTS = list(MUTANTS) + [
+    ("proxy shape forwarded to the origin (F07b returns)",
+     "dclab/rtdc_dataset/feat_basin.py",
+     ("return (len(self.basinmap),) + tuple(self.feat_obj.shape[1:])",
+      "return tuple(self.feat_obj.shape)"), "R7.6"),
+    ("hierarchy basins not re-mapped on export (F07c returns)",
+     "dclab/rtdc_dataset/export.py",
+     ('                if ds.format == "hierarchy":\n'
+      '                    # avoid circular imports',
+      '                if False:\n'
+      '                    # avoid circular imports'), "R7.3"),
+]
